@@ -207,6 +207,23 @@ def pimap(ctx, fn, items, chunksize=1):
 # finishing: evidence, known findings, VIOLATION lines
 
 
+_UNITTEST = '''"""Replays one recorded violation of {pid} ({key}) against the current tree, without the explorer.
+Run: GECKOMC_REPO=/repo /venv/bin/python {path_test}   (passes once the violation is gone)"""
+import os, subprocess, sys, unittest
+
+
+class Replay(unittest.TestCase):
+    def test_replay(self):
+        r = subprocess.run([os.path.join({verif!r}, "check"), {pid!r}, "--replay", {path!r}], capture_output=True, text=True)
+        self.assertNotIn("VIOLATION", r.stdout, r.stdout)
+        self.assertEqual(r.returncode, 0, r.stdout + r.stderr)
+
+
+if __name__ == "__main__":
+    unittest.main()
+'''.replace("{path_test}", "<this file>")
+
+
 def finish(ctx, manifest_level=None):
     known = Known()
     os.makedirs(EVIDENCE_DIR, exist_ok=True)
@@ -234,6 +251,9 @@ def finish(ctx, manifest_level=None):
                     indent=1,
                     sort_keys=True,
                 )
+            # a plain unit test that replays exactly this case without the explorer
+            with open(path[:-5] + "_test.py", "w") as fh:
+                fh.write(_UNITTEST.format(pid=ctx.pid, path=path, key=key, verif=VERIF))
         paths.append(path)
         print(f"VIOLATION property={ctx.pid} replay={path}", flush=True)
         print(f"  key : {key}", flush=True)
